@@ -51,6 +51,11 @@ CHECKS = {
    text='build_miter is run on thousands of equal-shape and mismatched pairs of TLC-enumerated circuits (1-3 outputs, shared labels, repeated/input outputs, equivalent pairs); TLC judges the miter projection (interface, one output, true exactly where the operand truth tables differ), the real evaluation of the miter on all rows, operands unchanged, the dedicated error, and satisfiable <=> not equivalent.',
    note='Trusted: TLC, JudgeCnf.C13Fails, solver shim.',
    tech='TLC-enumerated circuit pairs replayed into build_miter; recorded miters validated by a TLC trace specification'),
+
+ 'C12': dict(cat='model_checking', ref='5 (C12)',
+   text='TLC enumerates ALL functions for (n,m) in {(1,1),(2,1),(2,2),(3,1)} (FuncUniverse.tla; larger shapes sampled); each is realised as TruthTable, PyFunction (sequence and positional callables) and Circuit (DNF) and every protocol query with every index argument / output subset is asked; TLC judges every answer against the mathematical definitions in FuncProps.tla, hence the three representations agree. All don\'t-care patterns of (2,1) (sampled beyond) are completed through TruthTableModel / PyFunctionModel.define and integer wrappers are decoded in both bit orders.',
+   note='Trusted: TLC, FuncProps definitions (monotone = documented canonical-order definition). For the negation query only existence and validity of the returned vector are compared.',
+   tech='TLC-enumerated Boolean functions replayed into three representations; recorded protocol answers validated against TLA+ definitions by TLC'),
 }
 PENDING = 'check not built yet in this round (work in progress; see DESIGN.md section 5)'
 m = {
